@@ -124,7 +124,7 @@ def run(ctx: Ctx):
         )
     ctx.assume("pandas.cut and pandas.IntervalIndex.from_breaks define the binning specification (external oracle)")
     ctx.trust("pandas.cut", "numpy.digitize", "numpy.ravel_multi_index", "z3 / cvc5")
-    return "other", ("Mixed: the cut and ravel obligations are proved pointwise over all reals on the real source; the end-to-end contract is a bounded stand-in. " + note)
+    return "other", ("Mixed: the cut, ravel and factorize_ obligations are proved pointwise over all reals on the real source; the end-to-end contract is a bounded stand-in. " + note)
 
 
 def _case_of(payload):
